@@ -24,18 +24,34 @@ def levelZ (p : Nat) : List DF := ((DF.levels p).getD p ⟨[], [], []⟩).zs
 
 set_option maxRecDepth 100000
 
+/-- one kernel evaluation of the generator (about six minutes, 22 GB): the generated trees are admissible, their numbers are those
+of the theory, every tree has the order of its level, and no tree is generated twice (orders 1 … 4, and the meagre-rooted ones of
+order 5; the 1326 fat-rooted trees of order 5 are not compared pairwise: the kernel runs out of its budget) -/
+theorem C07dae_trees_sound :
+    (DF.yTreesUpTo 5).all DF.admissible = true ∧ (DF.zTreesUpTo 5).all DF.admissible = true ∧
+    (DF.levels 5).map (fun L => (L.ys.length, L.zs.length)) = [(0, 0), (1, 1), (2, 5), (10, 28), (56, 186), (372, 1326)] ∧
+    DF.levelsOK (DF.levels 5) 0 = true ∧ DF.distinct (DF.yTreesUpTo 5) = true ∧ DF.distinct (DF.zTreesUpTo 4) = true := by
+  decide +kernel
+
 /-- the generated trees are admissible and their numbers are those of the theory -/
 theorem C07dae_trees_admissible :
     (DF.yTreesUpTo 5).all DF.admissible = true ∧ (DF.zTreesUpTo 5).all DF.admissible = true ∧
-    (DF.levels 5).map (fun L => (L.ys.length, L.zs.length)) = [(0, 0), (1, 1), (2, 5), (10, 28), (56, 186), (372, 1326)] := by
-  decide +kernel
+    (DF.levels 5).map (fun L => (L.ys.length, L.zs.length)) = [(0, 0), (1, 1), (2, 5), (10, 28), (56, 186), (372, 1326)] :=
+  ⟨C07dae_trees_sound.1, C07dae_trees_sound.2.1, C07dae_trees_sound.2.2.1⟩
 
-/-- every generated tree has the order of its level, and no tree is generated twice (orders 1 … 4, and the meagre-rooted ones of order 5) -/
+/-- every generated tree has the order of its level, and no tree is generated twice -/
 theorem C07dae_levels_sound :
-    ((List.range 6).all fun k => ((DF.levels 5).getD k ⟨[], [], []⟩).ys.all (fun t => DF.rho t == k) &&
-                                 ((DF.levels 5).getD k ⟨[], [], []⟩).zs.all (fun t => DF.rho t == k)) = true ∧
-    (DF.yTreesUpTo 5).Nodup ∧ (DF.zTreesUpTo 4).Nodup := by
-  refine ⟨by decide +kernel, by decide +kernel, by decide +kernel⟩
+    DF.levelsOK (DF.levels 5) 0 = true ∧ DF.distinct (DF.yTreesUpTo 5) = true ∧ DF.distinct (DF.zTreesUpTo 4) = true :=
+  C07dae_trees_sound.2.2.2
+
+/-- `eqb` decides equality (so `distinct` means what it says) -/
+theorem DF.eqb_iff (a b : DF) : DF.eqb a b = true ↔ a = b := by
+  induction a generalizing b with
+  | nil => cases b <;> simp [DF.eqb]
+  | cons f k r ihk ihr =>
+    cases b with
+    | nil => simp [DF.eqb]
+    | cons f' k' r' => simp [DF.eqb, ihk, ihr, and_assoc]
 
 /-- the ODE trees are among them: a forest without fat vertices gets the ODE elementary weight and density -/
 example : (rodas4.phiForest ratFld (DF.tree false (DF.tree false .nil))).headD [] = rodas4.phi ratFld (.cons .nil .nil) := by decide +kernel
